@@ -397,21 +397,35 @@ def p7(ctx):
                 why = ""
                 # (1) the split predicate: membership of source and image in the new slot set compared by ==/!=
                 pred = None
+                pred_op = None
                 for sub in b.all_bodies():
                     cands = []
                     for x in sub.calls:
                         if x.callee and x.callee.name in ("eq", "ne") and len(x.args) == 2 and not sub.blocks[x.bb]["cleanup"]:
-                            cands.append((sub.role_of_operand(x.args[0]), sub.role_of_operand(x.args[1])))
+                            cands.append((sub.role_of_operand(x.args[0]), sub.role_of_operand(x.args[1]), x.callee.name))
                     for y in role_walk(sub.role_of_local(0)):
                         if isinstance(y, tuple) and y[0] == "bin" and y[1] in ("Eq", "Ne"):
-                            cands.append((y[2], y[3]))
+                            cands.append((y[2], y[3], y[1].lower()))
                     for e_, cond in C.all_cond_edges(sub):
                         if cond[0] in ("eq", "ne") and len(cond) == 3:
-                            cands.append((cond[1], cond[2]))
-                    for r0, r1 in cands:
+                            cands.append((cond[1], cond[2], None))
+                    for r0, r1, op_ in cands:
                         r0, r1 = strip_role(r0), strip_role(r1)
                         if all(isinstance(r, tuple) and r[0] == "call" and r[1] == "contains" and r[3] for r in (r0, r1)) and strip_role(r0[3][0]) == strip_role(r1[3][0]) and r0[3][1:] != r1[3][1:]:
                             pred = sub
+                            pred_op = op_
+                # (1b) a generator can be restricted only if EVERY entry keeps its side of the new slot set: when the test is a
+                #      closure handed to an iterator quantifier, that quantifier is `all` (or `any` over the negated test)
+                if pred is not None and pred.kind == "Closure" and pred_op in ("eq", "ne"):
+                    for sub in b.all_bodies():
+                        for x in sub.calls:
+                            if not x.callee or sub.blocks[x.bb]["cleanup"] or x.callee.name not in ("all", "any"):
+                                continue
+                            if any(isinstance(strip_role(sub.role_of_operand(a_)), tuple) and strip_role(sub.role_of_operand(a_))[0] == "agg" and strip_role(sub.role_of_operand(a_))[1] == pred.id for a_ in x.args):
+                                okq = (x.callee.name, pred_op) in (("all", "eq"), ("any", "ne"))
+                                ctx.check(okq, "restrictable-is-forall:" + C.fkey(b), "a generator is restricted to the new slot set only if all its entries stay on their side of it",
+                                          "%s calls a generator restrictable when SOME entry keeps its side of the new slot set (`%s` over `contains(x) %s contains(y)`): a symmetry that maps a kept slot to a dropped one is then cut down to a partial map instead of being re-asserted — the group gets a non-permutation and the rest of the orbit is never made redundant" % (C.short(wid), x.callee.name, "==" if pred_op == "eq" else "!="),
+                                          where_of(sub, x.bb))
                 # (2) a loop over (something derived from) the old generators, after the slot store, running to
                 #     exhaustion, that re-asserts each element through the leader union
                 if pred is not None:
